@@ -173,6 +173,13 @@ func underConstruction(rt Root) bool {
 	}
 	switch n.Obj().Name() {
 	case "Parser", "lexer":
+		// … but not what is reached through the template's set: the set (its cache, its loaders, its globals) is
+		// shared with every other template and outlives this compilation
+		for _, o := range rt.Owners {
+			if o.Type == "TemplateSet" || (o.Type == "Template" && o.Field == "set") {
+				return false
+			}
+		}
 		return true
 	}
 	_ = types.Typ
